@@ -235,11 +235,19 @@ def run(ctx: Ctx) -> int:
                 prev = s
             # host agreement when the signal starts released
             if not in_loop and sig[0] == 0 and not nohandler:
-                it = iter(sig[1:])
                 clicks = []
-                hb = sensors.Button(7, on_click=lambda: clicks.append(1), state_provider=lambda: bool(next(it)))
-                for _ in sig[1:]:
-                    hb.is_pressed()
+                feed = {"i": 0}
+
+                def provider(seq=sig[1:], feed=feed):      # a consuming source (queue / recorded trace): every read takes the next sample
+                    v = seq[min(feed["i"], len(seq) - 1)]
+                    feed["i"] += 1
+                    return bool(v)
+                hb = sensors.Button(7, on_click=lambda: clicks.append(1), state_provider=provider)
+                got = [hb.is_pressed() for _ in sig[1:]]
+                if feed["i"] != len(sig[1:]):
+                    ctx.fail("button:host-samples-per-poll", f"host Button took {feed['i']} samples for {len(sig[1:])} is_pressed() calls", replay)
+                elif got != [bool(v) for v in sig[1:]]:
+                    ctx.fail("button:host-is_pressed-not-sample", f"host Button.is_pressed() returned {got} for the signal {sig[1:]}", replay)
                 if len(clicks) != sum(p["click"] for p in ps):
                     ctx.fail("button:host-count", f"host Button clicked {len(clicks)} times, firmware {sum(p['click'] for p in ps)}", replay)
                 # same sampled signal, but the simulated level glitches between two samples (set_pressed path)
